@@ -335,6 +335,42 @@ func main() {
 		}
 	}
 	genB(maxB)
+	// ---- well-formed-looking specifications that reach the error branches behind the parser (definition conflicts,
+	// equal values, position-less implicit definitions, handles of every kind, rules without productions): every pair
+	// and triple of declaration forms over two texts, used in one start rule
+	forms := []func(name, text string) (decl, use string){
+		func(n, t string) (string, string) { return "", `"` + t + `"` },                        // implicit literal
+		func(n, t string) (string, string) { return "", `"\` + t + `"` },                       // implicit literal, needless escape
+		func(n, t string) (string, string) { return n + ` = "` + t + `" ;`, n },                // named literal
+		func(n, t string) (string, string) { return n + ` = "\` + t + `" ;`, n },               // named literal, needless escape
+		func(n, t string) (string, string) { return n + ` = /\` + t + `/ ;`, n },               // named pattern (escaped)
+		func(n, t string) (string, string) { return n + ` = /[\` + t + `]/ ;`, n },             // named pattern, class
+		func(n, t string) (string, string) { return n + ` = /(\` + t + `)*/ ;`, n },            // named pattern, nullable
+		func(n, t string) (string, string) { return n + ` = $ID ;`, n },                        // predefined
+		func(n, t string) (string, string) { return "", n },                                    // used, never defined
+		func(n, t string) (string, string) { return "@left " + n + ` "` + t + `" ;`, n },       // handle only
+		func(n, t string) (string, string) { return "@none <r" + t[len(t)-1:] + " = > ;", "" }, // rule handle of a rule that does not exist
+	}
+	names := []string{"AA", "BB", "CC"}
+	var genF func(k int, decls, uses []string)
+	genF = func(k int, decls, uses []string) {
+		if len(decls) > 0 && mine() {
+			text := "grammar g ;\n" + strings.Join(decls, "\n") + "\nstart = " + strings.Join(uses, " ") + " ;\n"
+			checkSpecText(r, text)
+			r.Distinct("f:" + text)
+			r.Add("specs_definition_forms", 1)
+		}
+		if k == len(names) || (quick && k == 2) {
+			return
+		}
+		for _, t := range []string{"+", "a"} {
+			for _, f := range forms {
+				d, u := f(names[k], t)
+				genF(k+1, append(append([]string{}, decls...), d), append(append([]string{}, uses...), u))
+			}
+		}
+	}
+	genF(0, nil, nil)
 	// ---- truncations and single-byte deletions
 	texts := append([]string{}, wholeSpecs...)
 	if files, _ := filepath.Glob("/repo/internal/ebnf/fixture/*.grammar"); len(files) > 0 {
